@@ -261,6 +261,11 @@ def isPySpace (c : Nat) : Bool :=
   || (0x2000 ≤ c && c ≤ 0x200a) || c == 0x2028 || c == 0x2029 || c == 0x202f || c == 0x205f
   || c == 0x3000
 
+/-- what `int(s, 16)` skips around the number: CPython maps non-ASCII spaces to `' '` first and then
+applies the C `isspace`, which — unlike `str.isspace` — does not contain the separators 1Ch..1Fh
+(`int('1f\x1c', 16)` is a ValueError although `'1f\x1c'.strip() == '1f'`) -/
+def isIntSpace (c : Nat) : Bool := isPySpace c && !(28 ≤ c && c ≤ 31)
+
 def lstrip (s : Str) : Str := s.dropWhile isPySpace
 def rstrip (s : Str) : Str := (s.reverse.dropWhile isPySpace).reverse
 /-- `str.strip()` -/
@@ -285,7 +290,7 @@ def hexDigitsVal : Str → Nat → Bool → Option Nat
 /-- `int(s, 16)` for ASCII input: surrounding white space, sign, `0x`/`0X` prefix (one underscore
 may follow the prefix), digits.  `none` is ValueError. -/
 def pyIntHex (s : Str) : Option Int :=
-  let t := strip s
+  let t := ((s.dropWhile isIntSpace).reverse.dropWhile isIntSpace).reverse
   let (neg, t) := match t with
     | 43 :: r => (false, r)
     | 45 :: r => (true, r)
